@@ -180,3 +180,8 @@ package common
 //@   requires bA != nil ==> wfBits(bA)
 //@   ensures (bA == nil || len(bA.Elems) == 0) ==> r == nil
 //@   ensures [fieldsCopied] bA != nil && len(bA.Elems) != 0 ==> fresh(r) && r.Bits == bA.Bits && r.Elems == bA.Elems
+
+// Overflow-checked multiplication (math/bits.Mul64).
+//@ trusted func SafeMul(x, y uint64) (r uint64, overflow bool)
+//@   ensures overflow <==> x * y > 18446744073709551615
+//@   ensures !overflow ==> r == x * y
